@@ -52,3 +52,26 @@ Theorem C07_duplicate_carets_in_range :
     f + fl <= length t /\ s + sl <= length t /\ f + fl <= s.
 Proof. exact parse_dup_in_range. Qed.
 Print Assumptions C07_duplicate_carets_in_range.
+
+(* ---- the search, at the level of indices and slices (Model/SearchC.v: every `path[consumed]`, `&path[..consumed]`,
+        `&path[consumed..]`, `&path[prefix.len()..]` and the `constraints.get(name).unwrap()` is an explicit operation
+        that can return Panic; loops run on fuel) ---- *)
+From WF Require Import Model.Constraints Model.SearchC Proofs.SearchCP.
+Print grow.
+Print dyn_segment.
+Print check_c.
+
+(* for every history and every path: the index-level search returns (no Panic, no fuel exhaustion) and returns exactly
+   the answer of the functional search the routing theorems are about *)
+Theorem C07_search_never_panics :
+  forall b (ops : list op) (path : bytes),
+    search_c (r_constraints (run b ops)) (r_root (run b ops)) path
+    = Ret (search (cfun_of (r_constraints (run b ops))) (r_root (run b ops)) path).
+Proof. exact reachable_search_c. Qed.
+Print Assumptions C07_search_never_panics.
+
+(* for every tree that meets the stated precondition (constraint names registered, catch-all children carry data) *)
+Theorem C07_index_level_search_is_the_search :
+  forall cons n path, sc_ok cons n = true -> search_c cons n path = Ret (search (cfun_of cons) n path).
+Proof. exact search_c_refines. Qed.
+Print Assumptions C07_index_level_search_is_the_search.
